@@ -302,6 +302,7 @@ func (b *Batcher) trySendBatchAndUnlock(batch *Batch) {
 	b.batch = nil
 	b.mu.Unlock()
 
+	verifGate("batcher.beforeSend")
 	b.fullBatches <- batch
 }
 
